@@ -122,20 +122,71 @@ def check_align(prog, ctx):
     newidx = [a for a in walk_own(bw.node) if isinstance(a, ast.Assign) and src(a.targets[0]) == "new_indices"]
     ctx.check(bool(newidx) and src(newidx[0].value).replace(" ", "") == "list(without(a.indices,axes_a)+without(b.indices,axes_b))", rid,
               bw, bw.node, "blockwise indices", "the blockwise path builds the same free indices")
-    # drop_misaligned_sectors: intersection of the contracted sub-sectors, same axes roles
+    check_alignment_semantics(prog, ctx)
+    ctx.minimum(rid, 6, "alignment, early return, abstract evaluation")
+
+
+def check_alignment_semantics(prog, ctx):
+    """abstract evaluation of drop_misaligned_sectors on the key-set domain: for every pair of
+    contracted sub-sector sets A (of a) and B (of b), both results keep exactly the sectors whose
+    contracted sub-sector lies in the intersection, and the index tables shrink accordingly."""
+    import itertools
+
+    from engine.minieval import Evaluator, Obj, Raised, Unsupported
+    from rules.c08_dispatch import Tok
+
+    rid = "R06.2"
     dm = prog.func("symmray.abelian_core:drop_misaligned_sectors")
-    ssa = [a for a in walk_own(dm.node) if isinstance(a, ast.Assign) and src(a.targets[0]) == "sub_sectors_a"]
-    ssb = [a for a in walk_own(dm.node) if isinstance(a, ast.Assign) and src(a.targets[0]) == "sub_sectors_b"]
-    ok = len(ssa) == 1 and len(ssb) == 1 and "for ax in axes_a" in src(ssa[0].value) and "in a.sectors" in src(ssa[0].value) \
-        and "for ax in axes_b" in src(ssb[0].value) and "in b.sectors" in src(ssb[0].value)
-    ctx.check(ok, rid, dm, dm.node, "sub-sectors", "a's sub-sectors use axes_a on a's sectors, b's use axes_b on b's sectors")
-    al = [a for a in walk_own(dm.node) if isinstance(a, ast.Assign) and src(a.targets[0]) == "allowed_subsectors"]
-    ok = len(al) == 1 and "intersection" in src(al[0].value) and "sub_sectors_a" in src(al[0].value) and "sub_sectors_b" in src(al[0].value)
-    ctx.check(ok, rid, dm, dm.node, "intersection", "the kept sub-sectors are the intersection of both sides")
-    keep = [n for n in ast.walk(dm.node) if isinstance(n, ast.If) and "in allowed_subsectors" in src(n.test)]
-    ok = len(keep) == 2 and sorted(src(n.test) for n in keep) == ["sub_sectors_a[sector] in allowed_subsectors", "sub_sectors_b[sector] in allowed_subsectors"]
-    ctx.check(ok, rid, dm, dm.node, "filters", "each side is filtered by its own sub-sector table")
-    ctx.minimum(rid, 8, "alignment, early return, intersection")
+    arr = prog.cls("AbelianArray")
+    ixc = prog.cls("BlockIndex")
+    universe = [(0, 0), (0, 1), (1, 0), (1, 1)]  # two contracted axes -> four sub-sectors
+
+    def mk(sectors, nd):
+        cms = [dict() for _ in range(nd)]
+        for s_ in sectors:
+            for i, c in enumerate(s_):
+                cms[i][c] = 1
+        indices = tuple(Obj(ixc, {"_dual": False, "_chargemap": dict(sorted(cm.items())), "_subinfo": None, "_hashkey": None}) for cm in cms)
+        return Obj(arr, {"_blocks": {s_: Tok(("blk", s_)) for s_ in sectors}, "_indices": indices, "_charge": 0, "_symmetry": None})
+
+    bad = None
+    ncase = 0
+    subsets = [c for r in range(1, 5) for c in itertools.combinations(universe, r)]
+    for A in subsets:
+        for B in subsets:
+            # a: (free, c1, c2), b: (c1, c2, free); contracted axes (1,2) of a with (0,1) of b
+            a_sec = [(0,) + s_ for s_ in A] + [(1,) + A[0]]
+            b_sec = [s_ + (0,) for s_ in B]
+            for inplace in (False, True):
+                a, b = mk(a_sec, 3), mk(b_sec, 3)
+                ev = Evaluator(prog, stubs={"DEBUG": False}, max_steps=100000)
+                ncase += 1
+                try:
+                    ra, rb = ev.call(dm, [a, b, (1, 2), (0, 1)], {"inplace": inplace})
+                except Unsupported as e:
+                    raise AnalysisError(f"drop_misaligned_sectors outside the evaluable sub-language: {e}")
+                except (Raised, KeyError, RuntimeError) as e:
+                    bad = bad or f"A={A} B={B}: {type(e).__name__}: {e}"
+                    continue
+                keep = set(A) & set(B)
+                want_a = {s_ for s_ in a_sec if s_[1:] in keep}
+                want_b = {s_ for s_ in b_sec if s_[:2] in keep}
+                ga, gb = set(ra.fields["_blocks"]), set(rb.fields["_blocks"])
+                if ga != want_a or gb != want_b:
+                    bad = bad or (f"a sub-sectors {A}, b sub-sectors {B}: kept a={sorted(ga)} (want {sorted(want_a)}), "
+                                  f"b={sorted(gb)} (want {sorted(want_b)})")
+                    continue
+                for arr_, want in ((ra, want_a), (rb, want_b)):
+                    for i, ix in enumerate(arr_.fields["_indices"]):
+                        have = set(ix.fields["_chargemap"])
+                        need = {s_[i] for s_ in want}
+                        if want and have != need:
+                            bad = bad or f"A={A} B={B}: index {i} keeps charges {sorted(have)} but sectors use {sorted(need)}"
+                if not inplace and (set(a.fields["_blocks"]) != set(a_sec) or set(b.fields["_blocks"]) != set(b_sec)):
+                    bad = bad or "operands changed although inplace=False"
+    ctx.check(bad is None, rid, dm, dm.node, "alignment semantics",
+              f"both operands keep exactly the sectors whose contracted sub-sector is shared, and their charge tables shrink to the "
+              f"charges still used ({ncase} sub-sector configurations evaluated abstractly)" + ("" if bad is None else f" — witness: {bad}"))
 
 
 def run(prog, ctx):
